@@ -2800,3 +2800,7 @@ for _p, _r, _patch, _what in (("C14", "R-C14-2", "probe-copy-shallow", "copy() s
                               ("C13", "R-C13-3", "probe-units-sortedlist", "an annotator's units kept in a SortedList: duplicates are stored twice"),
                               ("C10", "R-C10-4", "probe-copy-window-dropped", "copy() no longer carries best_window_size")):
     VARIANTS.append(dict(prop=_p, id=f"r13/{_patch}", kind="M", rule=_r, patch=_os.path.join(_HP, f"{_patch}.diff"), note=_what))
+VARIANTS.append(dict(prop="C17", id="r14/broken-alignment-peeks-first", kind="M", rule="R-C17-4", patch=_os.path.join(_HP, "broken-alignment-peeks-first.diff"),
+                     note="Alignment.__init__ takes the first element of its iterable argument before storing list(argument)"))
+VARIANTS.append(dict(prop="C19", id="r14/broken-category-weights-key-casefolded", kind="M", rule="R-SUP", patch=_os.path.join(_HP, "broken-category-weights-key-casefolded.diff"),
+                     note="category_weights counts under the case-folded label: its keys are not the labels the units carry"))
